@@ -388,22 +388,30 @@ Definition fetch_run_unmark_always (v : N) (o : fetch_outcome) (s : cslot) : csl
 Definition prepare (opens_partial : bool) (v : N) (o : fetch_outcome) (s : cslot) : cslot :=
   if backup_ok opens_partial s then s else fetch_run v o s.
 
-(* the data directory during restoreFromPath, with the marker file "restoring" *)
-Inductive ddata := DOld | DMixed | DNew.
-Record rslot := { rs_data : ddata; rs_marked : bool }.
-Inductive rstep := RMark | RMix | RDone | RUnmark.
+(* the data directory during restoreFromPath, with the marker file "restoring". The marker records
+   WHICH backup directory the checkpoint is restored from (rocksdb_backup or rocksdb_backup/remote:
+   both may hold a checkpoint of the same (term,index) name with different content). *)
+Inductive bsrc := FromLocal | FromRemote.
+Inductive ddata := DOld | DMixed | DNew (from : bsrc).
+Record rslot := { rs_data : ddata; rs_marked : option bsrc }.
+Inductive rstep := RMark (from : bsrc) | RMix | RDone (from : bsrc) | RUnmark.
 Definition rstep_run (s : rslot) (e : rstep) : rslot :=
   match e with
-  | RMark => {| rs_data := rs_data s; rs_marked := true |}
+  | RMark f => {| rs_data := rs_data s; rs_marked := Some f |}
   | RMix => {| rs_data := DMixed; rs_marked := rs_marked s |}      (* a file removed or copied *)
-  | RDone => {| rs_data := DNew; rs_marked := rs_marked s |}       (* the last file copied *)
-  | RUnmark => {| rs_data := rs_data s; rs_marked := false |}
+  | RDone f => {| rs_data := DNew f; rs_marked := rs_marked s |}   (* the last file copied *)
+  | RUnmark => {| rs_data := rs_data s; rs_marked := None |}
   end.
 Definition rrun (s : rslot) (l : list rstep) : rslot := fold_left rstep_run l s.
-Definition restore_steps : list rstep := [RMark; RMix; RDone; RUnmark].
-Definition restore_steps_unmarked : list rstep := [RMix; RDone].
-(* OpenRockDB: an interrupted restore is finished first (restore_plan from whatever is there) *)
-Definition open_after_crash (s : rslot) : ddata := if rs_marked s then DNew else rs_data s.
+Definition restore_steps (f : bsrc) : list rstep := [RMark f; RMix; RDone f; RUnmark].
+Definition restore_steps_unmarked (f : bsrc) : list rstep := [RMix; RDone f].
+(* OpenRockDB: an interrupted restore is finished first, from the directory the marker records
+   (restore_plan on whatever files are there) *)
+Definition open_after_crash (s : rslot) : ddata :=
+  match rs_marked s with Some f => DNew f | None => rs_data s end.
+(* finishing it from the store's local backup directory whatever the marker says (seeded/C14-c1) *)
+Definition open_after_crash_local (s : rslot) : ddata :=
+  match rs_marked s with Some _ => DNew FromLocal | None => rs_data s end.
 
 (* ---------- node.GetValidBackupInfo: which peer a snapshot is fetched from ----------
    A peer is asked over HTTP (checkbackup, body = the raft snapshot) whether it has the backup of
@@ -505,7 +513,9 @@ Definition reuse_plan (b : bdir) (src newn : bytes) (skip : nat) : reuse_res :=
 
 (* ---------- the value level ---------- *)
 
-Record ckinfo := { ck_val : N; ck_dg : N }.
+(* ck_src: 0 for a checkpoint the store made itself, else the id of the source it was transferred from
+   (the content of its source_node_info file) *)
+Record ckinfo := { ck_val : N; ck_dg : N; ck_src : N }.
 Record vstore := {
   vs_val : N;                              (* id of the current logical content *)
   vs_cks : list (bytes * ckinfo);          (* backup directory rocksdb_backup, in byte order of names *)
@@ -575,7 +585,7 @@ Definition vstep (s : vstore) (o : vop) : vstore * vres :=
       | None => (s, RNone)
       | Some (n, v) =>
           (vpurge (set_pending (set_cks (set_val s h)
-                     (ck_insert (ck_remove (vs_cks s) n) (n, {| ck_val := v; ck_dg := dg |}))) None), ROk)
+                     (ck_insert (ck_remove (vs_cks s) n) (n, {| ck_val := v; ck_dg := dg; ck_src := 0 |}))) None), ROk)
       end
   | ORestore t i =>
       match ck_lookup (vs_cks s) (enc_name t i) with
@@ -603,13 +613,26 @@ Definition vcopy (a b : vstore) (t i : N) : vstore * vres :=
   | Some c => (set_cks b (ck_insert (ck_remove (vs_cks b) n) (n, c)), ROk)
   end.
 
-(* the same into b's directory for remote checkpoints (ProposeOp_TransferRemoteSnap) *)
-Definition vcopy_remote (a b : vstore) (t i : N) : vstore * vres :=
+(* ProposeOp_TransferRemoteSnap on store b with source a (source id src <> 0): when the directory for
+   remote checkpoints already holds this (term,index) complete AND from the same source
+   (isTransferredCheckpointComplete) nothing is fetched; otherwise the checkpoint is transferred
+   (a stale directory of that name is replaced; if the source does not have it the transfer fails
+   and nothing usable is left). *)
+Definition vtransfer_with (same_source_needed : bool) (a b : vstore) (src t i : N) : vstore * vres :=
   let n := enc_name t i in
-  match ck_lookup (vs_cks a) n with
-  | None => (set_remote b (ck_remove (vs_remote b) n), RNoSrc)
-  | Some c => (set_remote b (ck_insert (ck_remove (vs_remote b) n) (n, c)), ROk)
-  end.
+  let shortcut := match ck_lookup (vs_remote b) n with
+                  | Some c => negb (ck_src c =? 0) && (negb same_source_needed || (ck_src c =? src))
+                  | None => false
+                  end in
+  if shortcut then (b, ROk)
+  else match ck_lookup (vs_cks a) n with
+       | None => (set_remote b (ck_remove (vs_remote b) n), RErr)
+       | Some c => (set_remote b (ck_insert (ck_remove (vs_remote b) n)
+                                   (n, {| ck_val := ck_val c; ck_dg := ck_dg c; ck_src := src |})), ROk)
+       end.
+Definition vtransfer := vtransfer_with true.
+(* the shortcut keyed by (term,index) only, whatever the source (seeded/C14-c3) *)
+Definition vtransfer_any_source := vtransfer_with false.
 
 (* kvStoreSM.PrepareSnapshot on store b with peer a: nothing to do when b has a local backup of
    (t,i); otherwise the peer's checkpoint directory is copied (RNoSrc: no peer has it) *)
